@@ -5,7 +5,10 @@ R1 (engine E1): in every debug entry point, with the caller holding nothing / th
    a store by the spinlock holder of the word it installed with only the spinlock bit cleared); the typestate at exit equals the
    typestate at entry; no blocking call is made.
 R2 (bounds, nsa.bounds): every store through the caller's buffer is within [0, len).
-R3 (CFG): every path through the state emitters ends with the emission of a NUL through the bounded writer."""
+R3 (CFG): every path through a state emitter ends with a terminator: the NUL handed to the character writer (the one function that, when
+   a character does not fit, writes the "..." marker), or a NUL stored directly at start[pos] under pos < len (it fits, nothing is lost).
+   A path on which the text filled the buffer and that bypasses the character writer drops the last character without the marker.
+   Nothing is emitted after the terminator."""
 from .. import util, mumodel, ir as IR
 from ..cfg import cfg_of
 from ..report import Violation, AnalysisBroken
@@ -23,7 +26,7 @@ def run(ctx, rep):
     eng, runs = mumodel.analyse(ctx)
     rep.rule('C16.R1', 'debug entry points: every word transition flips only the spinlock bit, no stale plain store, typestate unchanged at exit, no blocking call')
     rep.rule('C16.R2', 'every store through the caller buffer is within [0, n)')
-    rep.rule('C16.R3', 'every path through the emitters ends with a NUL written by the bounded writer')
+    rep.rule('C16.R3', 'every path through a state emitter ends with the NUL handed to the character writer (truncation marker) or stored at start[pos] where it fits')
     spinbit = {'mu': K['MU_SPINLOCK'], 'cv': K['CV_SPINLOCK']}
     ents = [e for e, _ in runs if is_debug_entry(e['label'])]
     if len(ents) < 6:
@@ -72,37 +75,106 @@ def run(ctx, rep):
     # ---- R2 bounds
     from .. import bounds
     bounds.check_emit_bounds(mod, rep, 'C16.R2')
-    # ---- R3 final NUL
-    writers = bounds.buffer_writers(mod)
-    for fn in mod.defined.values():
-        nul_calls = [i for i in fn.real_insts() if i.op == 'call' and i.callee in writers and len(i.ops) >= 2 and IR.is_int(i.ops[1]) and IR.ival(i.ops[1]) == 0]
-        if not nul_calls:
-            continue
-        cfg = cfg_of(fn)
-        emit_like = set(writers)
-        cg = util.callgraph(mod)
-        for f2, cs in cg.items():
-            if cs & emit_like:
-                emit_like.add(f2)
-        ok = False
-        why = 'the NUL emission does not lie on every path to the return'
-        for c in nul_calls:
-            if not cfg.postdominates(c.block.id, fn.entry.id):
-                continue
-            # nothing is emitted after it
-            from ..cfg import paths_avoiding
-            later = paths_avoiding(fn, c, lambda i: i.op == 'call' and i.callee in emit_like, lambda i: False)
-            if later is None:
-                ok = True
-            else:
-                why = 'text is emitted after the terminating NUL (%s)' % later.where()
-        rep.instance('C16.R3', '%s: terminating NUL at %s' % (fn.name, nul_calls[0].where()))
-        rep.oblig('C16.R3', ok)
-        if not ok:
-            rep.violate(Violation('C16.R3', nul_calls[0].where(), '%s: %s' % (fn.name, why), site='%s/final-nul' % fn.name))
+    # ---- R3 final NUL / truncation marker
+    check_termination(mod, rep, 'C16.R3')
     # public debug functions return the result of such an emitter on all paths
     rep.floor('C16.R3', 2)
     rep.assumptions += ['the caller passes n = the real size of buf (n >= 0)']
     return rep.finish(
         explanation='R1: typestate interpretation of the six debug entry points under all three caller modes: transitions touch only the spinlock bit and are RMWs (cv: spinlock-holder stores). R2: interval/affine proof that all stores through emit_buf.start are inside [0,len). R3: post-dominance of the terminating NUL.',
         trusted_base=['clang 14 IR', 'nsa/symex.py', 'nsa/bounds.py', 'dominators'])
+
+
+def check_termination(mod, rep, rid):
+    from .. import bounds
+    from ..cfg import paths_avoiding
+    writers = bounds.buffer_writers(mod)
+    # the character writer: stores a value derived from one of its parameters through the buffer (and owns the overflow path)
+    charw = set()
+    for w in writers:
+        fn = mod.func(w)
+        for i in fn.real_insts():
+            if i.op == 'store' and bounds._start_root(mod, fn, i.ops[1]) is not None:
+                v = i.ops[0]
+                seen = set()
+                while isinstance(v, str) and v in fn.imap and fn.imap[v].op in ('trunc', 'zext', 'sext') and v not in seen:
+                    seen.add(v); v = fn.imap[v].ops[0]
+                if isinstance(v, str) and v.startswith('a') and v[1:].isdigit():
+                    charw.add(w)
+    if not charw:
+        raise AnalysisBroken('%s: no character writer (a function storing its argument through emit_buf.start) found' % rid)
+    inits = set()
+    for fn in mod.defined.values():
+        for i in fn.real_insts():
+            if i.op == 'store' and bounds._field_of(mod, fn, i.ops[1])[0] == bounds.F_POS and IR.is_int(i.ops[0]) and IR.ival(i.ops[0]) == 0:
+                inits.add(fn.name)
+    BUFT = '%struct.emit_buf*'
+    def takes_buf(f):
+        return any(a['ty'] == BUFT for a in f.args)
+    cg = util.callgraph(mod)
+    emit_like = set(charw)
+    changed = True
+    while changed:
+        changed = False
+        for f2, cs in cg.items():
+            if f2 not in emit_like and cs & emit_like and f2 not in inits:
+                emit_like.add(f2); changed = True
+    def is_event(fn, i, term):
+        if i.op == 'call' and i.callee in charw and len(i.ops) >= 2 and IR.is_int(i.ops[1]) and IR.ival(i.ops[1]) == 0:
+            return True
+        if i.op == 'call' and i.callee in term:
+            return True
+        if i.op == 'store' and IR.is_int(i.ops[0]) and IR.ival(i.ops[0]) == 0 and bounds._start_root(mod, fn, i.ops[1]) is not None:
+            ok, why = bounds._prove_store(mod, fn, i, i.ops[1], None)
+            return ok and why.startswith('S1')
+        return False
+    # helpers that terminate the text on every path (fixpoint)
+    term = set()
+    changed = True
+    while changed:
+        changed = False
+        for f in mod.defined.values():
+            if f.name in term or f.name in charw or not takes_buf(f) or f.name in inits:
+                continue
+            if not any(is_event(f, i, term) for i in f.real_insts()):
+                continue
+            first = f.entry.insts[0]
+            esc = None if is_event(f, first, term) else paths_avoiding(f, first, lambda i: i.op == 'ret', lambda i: is_event(f, i, term))
+            if esc is None:
+                term.add(f.name); changed = True
+    # roots: the emitters the public functions hand their freshly initialised buffer to (or the public function itself)
+    roots = []
+    for P in mod.defined.values():
+        if P.name in inits or not any(i.op == 'call' and i.callee in inits for i in P.real_insts()):
+            continue
+        es = sorted(set(i.callee for i in P.real_insts() if i.op == 'call' and i.callee in emit_like and mod.func(i.callee) is not None and takes_buf(mod.func(i.callee))))
+        roots.extend(es or [P.name])
+    roots = sorted(set(roots))
+    if len(roots) < 1:
+        raise AnalysisBroken('%s: no state emitter found' % rid)
+    for rn in roots:
+        f = mod.func(rn)
+        ok = rn in term
+        why = None
+        if not ok:
+            first = f.entry.insts[0]
+            def ev(i):
+                return is_event(f, i, term)
+            esc = paths_avoiding(f, first, lambda i: i.op == 'ret', ev)
+            # name the helper that lets the path through, if that is where it happens
+            leak = next((i.callee for i in f.real_insts() if i.op == 'call' and i.callee not in term and i.callee not in charw and mod.func(i.callee) is not None
+                         and not mod.func(i.callee).decl and takes_buf(mod.func(i.callee)) and any(is_event(mod.func(i.callee), j, term) for j in mod.func(i.callee).real_insts())), None)
+            why = ('%s can return on a path that neither hands the terminating NUL to the character writer (%s) nor stores it at start[pos] under pos < len%s: when the text has filled the buffer the last character is dropped (or the text left unterminated) without the "..." truncation marker'
+                   % (rn, ', '.join(sorted(charw)), (' - the helper %s has such a path' % leak) if leak else ''))
+        else:
+            # nothing emitted after a terminator
+            for i in f.real_insts():
+                if is_event(f, i, term):
+                    later = paths_avoiding(f, i, lambda j: j.op == 'call' and j.callee in emit_like and not is_event(f, j, term), lambda j: False)
+                    if later is not None:
+                        ok = False
+                        why = '%s: text is emitted after the terminating NUL (%s)' % (rn, later.where())
+        rep.instance(rid, '%s: terminated on every path: %s (terminating helpers: %s)' % (rn, ok, sorted(term - {rn}) or '-'))
+        rep.oblig(rid, ok)
+        if not ok:
+            rep.violate(Violation(rid, '%s:%d in %s' % (IR.rel(f.file), f.line, rn), why, site='%s/final-nul' % rn))
